@@ -68,4 +68,33 @@ example : ∀ x ∈ Tables_mindsdb.sample, x ≠ 0 := by decide
 example : accepts Tables_mindsdb.tables .drain
     (Tables_mindsdb.sample.head! :: Tables_mindsdb.sample) = false := by decide +kernel
 
+/-! ### [review] additions (reviewer rev-lr-opm) -/
+
+/-- [review] the property's "equivalently": a token list outside the grammar's language is never accepted
+(contrapositive of `C05_sentence`; any mode, any fuel, whether or not the lexer would fail later) -/
+theorem C05_review_reject_nonsentence (T : Tables) (hv : T.valid = true) (mode : Mode) (bad : Bool)
+    (toks : List Nat) (fuel : Nat) (h0 : ∀ x ∈ toks, x ≠ 0) (hns : ¬ Sentence T toks) :
+    ∀ t log, parse T mode bad toks fuel ≠ .accept t log :=
+  fun t log h => hns (C05_sentence T hv mode bad toks fuel t log h0 h)
+
+/-- [review] non-vacuity of `C05_no_accept_after_error`: its hypothesis `PostErr` is satisfiable for every table
+(the configuration right after the draining callback ran on an empty stack: nothing left to read, errorcount 3) -/
+example (T : Tables) : PostErr T
+    { st := [], input := [], la := none, las := [], errcount := 3, errok := false, consumed := 1,
+      err := some ⟨some 0, 0⟩, log := [] } :=
+  { path := Path.nil, noErrLeaf := by simp, input := rfl, cnt := by decide, ok := rfl,
+    la := Or.inr ⟨rfl, rfl, rfl⟩, err := by simp }
+
+-- [review] two statements back to back (the resynchronisation scenario of the property) are not accepted,
+-- in all three dialects; the mindsdb run ends with `None` + error info, i.e. it went through the error callback
+example : accepts Tables_sqlite.tables .raise (Tables_sqlite.sample ++ Tables_sqlite.sample) = false := by
+  decide +kernel
+example : accepts Tables_mysql.tables .raise (Tables_mysql.sample ++ Tables_mysql.sample) = false := by
+  decide +kernel
+example : (match parse Tables_mindsdb.tables .drain false (Tables_mindsdb.sample ++ Tables_mindsdb.sample) 10000 with
+    | .none_ (some e) _ => e.bad == some Tables_mindsdb.sample.length | _ => false) = true := by decide +kernel
+-- [review] out of fuel is a distinct outcome, never an acceptance
+example : (match parse Tables_mindsdb.tables .drain false Tables_mindsdb.sample 20 with
+    | .fuel => true | _ => false) = true := by decide +kernel
+
 end MindsVerif.Props.C05
